@@ -3,6 +3,8 @@
 the demo fails with the patch and passes without. Writes /verif/seeded/<id>/{patch.diff,demo.py,notes.md,meta.json}."""
 import json, os, shutil, subprocess, sys, re
 SRC = sys.argv[1] if len(sys.argv) > 1 else "/tmp/seedout"
+OFF = int(os.environ.get("SEED_OFFSET", "0"))   # round 2: ids continue after the first round
+ONLY = sys.argv[2:]
 DST = "/verif/seeded"
 WT = "/tmp/wt_confirm"
 def sh(cmd, cwd=None, env=None):
@@ -13,13 +15,15 @@ rc, out = sh(f"git -C /repo worktree add -q --detach {WT} HEAD"); assert rc == 0
 head = sh("git -C /repo rev-parse --short HEAD")[1].strip()
 env = dict(os.environ, PYTHONPATH=WT, PYTHONDONTWRITEBYTECODE="1")
 res = []
-for pid in sorted(os.listdir(SRC)):
-    for k in sorted(os.listdir(os.path.join(SRC, pid))):
+for pid in sorted(x for x in os.listdir(SRC) if os.path.isdir(os.path.join(SRC, x))):
+    if ONLY and pid not in ONLY:
+        continue
+    for k in sorted(x for x in os.listdir(os.path.join(SRC, pid)) if x.isdigit()):
         d = os.path.join(SRC, pid, k)
         patch = os.path.join(d, "patch.diff"); demo = os.path.join(d, "demo.py")
         if not (os.path.isfile(patch) and os.path.isfile(demo)):
             res.append((pid, k, "missing files")); continue
-        sid = f"{pid}-{k}"
+        sid = f"{pid}-{int(k) + OFF}"
         sh("git checkout -q -- . && git clean -fdq", cwd=WT)
         rc0, o0 = sh(f"/venv/bin/python {demo}", cwd=WT, env=env)
         rc, o = sh(f"git apply {patch}", cwd=WT)
